@@ -1,0 +1,90 @@
+//go:build verif
+
+package synced
+
+// Machine-checked contracts for /verif (read as text by the VC generator; no code).
+// The synchronised wrappers are pure forwards: every operation calls the same operation of the wrapped
+// store / batch / iterator exactly once with exactly the same arguments and returns its results.
+// (The mutex is a no-op in the verifier's sequential semantics.)
+//
+//@ func (*store).Put
+//@   requires s != nil && s.underlying != nil
+//@   modifies gKeyValueWriterPutN, gKeyValueWriterPutRecv, gKeyValueWriterPutA0, gKeyValueWriterPutA1, gKeyValueWriterPutR0, gWrOpN, gWrOpKind[*], gWrOpRecv[*], gWrOpKey[*], gWrOpVal[*], gWrOpErr[*]
+//@   ensures  gKeyValueWriterPutN == old(gKeyValueWriterPutN) + 1 && gKeyValueWriterPutRecv == s.underlying && gKeyValueWriterPutA0 == key && gKeyValueWriterPutA1 == value && result == gKeyValueWriterPutR0
+//@ func (*store).Delete
+//@   requires s != nil && s.underlying != nil
+//@   modifies gKeyValueWriterDeleteN, gKeyValueWriterDeleteRecv, gKeyValueWriterDeleteA0, gKeyValueWriterDeleteR0, gWrOpN, gWrOpKind[*], gWrOpRecv[*], gWrOpKey[*], gWrOpVal[*], gWrOpErr[*]
+//@   ensures  gKeyValueWriterDeleteN == old(gKeyValueWriterDeleteN) + 1 && gKeyValueWriterDeleteRecv == s.underlying && gKeyValueWriterDeleteA0 == key && result == gKeyValueWriterDeleteR0
+//@ func (*store).Compact
+//@   requires s != nil && s.underlying != nil
+//@   modifies gCompacterCompactN, gCompacterCompactRecv, gCompacterCompactA0, gCompacterCompactA1, gCompacterCompactR0
+//@   ensures  gCompacterCompactN == old(gCompacterCompactN) + 1 && gCompacterCompactRecv == s.underlying && gCompacterCompactA0 == start && gCompacterCompactA1 == limit && result == gCompacterCompactR0
+//@ func (*store).Close
+//@   requires s != nil && s.underlying != nil
+//@   modifies gCloserCloseN, gCloserCloseRecv, gCloserCloseR0
+//@   ensures  gCloserCloseN == old(gCloserCloseN) + 1 && gCloserCloseRecv == s.underlying && result == gCloserCloseR0
+//@ func (*store).Drop
+//@   requires s != nil && s.underlying != nil
+//@   modifies gDroperDropN, gDroperDropRecv
+//@   ensures  gDroperDropN == old(gDroperDropN) + 1 && gDroperDropRecv == s.underlying
+//@ func (*store).NewBatch
+//@   requires s != nil && s.underlying != nil
+//@   modifies gBatcherNewBatchN, gBatcherNewBatchRecv, gBatcherNewBatchR0
+//@   ensures  gBatcherNewBatchN == old(gBatcherNewBatchN) + 1 && gBatcherNewBatchRecv == s.underlying && typeis(result, "*syncedBatch") && unbox(result, "*syncedBatch").underlying == gBatcherNewBatchR0 && unbox(result, "*syncedBatch").mu == s.iteratedReader.mu
+//@ func (*syncedBatch).Put
+//@   requires b != nil && b.underlying != nil
+//@   modifies gKeyValueWriterPutN, gKeyValueWriterPutRecv, gKeyValueWriterPutA0, gKeyValueWriterPutA1, gKeyValueWriterPutR0, gWrOpN, gWrOpKind[*], gWrOpRecv[*], gWrOpKey[*], gWrOpVal[*], gWrOpErr[*]
+//@   ensures  gKeyValueWriterPutN == old(gKeyValueWriterPutN) + 1 && gKeyValueWriterPutRecv == b.underlying && gKeyValueWriterPutA0 == key && gKeyValueWriterPutA1 == value && result == gKeyValueWriterPutR0
+//@ func (*syncedBatch).Delete
+//@   requires b != nil && b.underlying != nil
+//@   modifies gKeyValueWriterDeleteN, gKeyValueWriterDeleteRecv, gKeyValueWriterDeleteA0, gKeyValueWriterDeleteR0, gWrOpN, gWrOpKind[*], gWrOpRecv[*], gWrOpKey[*], gWrOpVal[*], gWrOpErr[*]
+//@   ensures  gKeyValueWriterDeleteN == old(gKeyValueWriterDeleteN) + 1 && gKeyValueWriterDeleteRecv == b.underlying && gKeyValueWriterDeleteA0 == key && result == gKeyValueWriterDeleteR0
+//@ func (*syncedBatch).Write
+//@   requires b != nil && b.underlying != nil
+//@   modifies gBatchWriteN, gBatchWriteRecv, gBatchWriteR0
+//@   ensures  gBatchWriteN == old(gBatchWriteN) + 1 && gBatchWriteRecv == b.underlying && result == gBatchWriteR0
+//@ func (*syncedBatch).ValueSize
+//@   requires b != nil && b.underlying != nil
+//@   modifies gBatchValueSizeN, gBatchValueSizeRecv, gBatchValueSizeR0
+//@   ensures  gBatchValueSizeN == old(gBatchValueSizeN) + 1 && gBatchValueSizeRecv == b.underlying && result == gBatchValueSizeR0
+//@ func (*syncedBatch).Reset
+//@   requires b != nil && b.underlying != nil
+//@   modifies gBatchResetN, gBatchResetRecv
+//@   ensures  gBatchResetN == old(gBatchResetN) + 1 && gBatchResetRecv == b.underlying
+//@ func (*syncedBatch).Replay
+//@   requires b != nil && b.underlying != nil
+//@   modifies gBatchReplayN, gBatchReplayRecv, gBatchReplayA0, gBatchReplayR0
+//@   ensures  gBatchReplayN == old(gBatchReplayN) + 1 && gBatchReplayRecv == b.underlying && gBatchReplayA0 == w && result == gBatchReplayR0
+//@ func (*iteratedReader).Has
+//@   requires ro != nil && ro.underlying != nil
+//@   modifies gKeyValueReaderHasN, gKeyValueReaderHasRecv, gKeyValueReaderHasA0, gKeyValueReaderHasR0, gKeyValueReaderHasR1
+//@   ensures  gKeyValueReaderHasN == old(gKeyValueReaderHasN) + 1 && gKeyValueReaderHasRecv == ro.underlying && gKeyValueReaderHasA0 == key && result0 == gKeyValueReaderHasR0 && result1 == gKeyValueReaderHasR1
+//@ func (*iteratedReader).Get
+//@   requires ro != nil && ro.underlying != nil
+//@   modifies gKeyValueReaderGetN, gKeyValueReaderGetRecv, gKeyValueReaderGetA0, gKeyValueReaderGetR0, gKeyValueReaderGetR1
+//@   ensures  gKeyValueReaderGetN == old(gKeyValueReaderGetN) + 1 && gKeyValueReaderGetRecv == ro.underlying && gKeyValueReaderGetA0 == key && result0 == gKeyValueReaderGetR0 && result1 == gKeyValueReaderGetR1
+//@ func (*iteratedReader).NewIterator
+//@   requires ro != nil && ro.underlying != nil
+//@   modifies gIterateeNewIteratorN, gIterateeNewIteratorRecv, gIterateeNewIteratorA0, gIterateeNewIteratorA1, gIterateeNewIteratorR0
+//@   ensures  gIterateeNewIteratorN == old(gIterateeNewIteratorN) + 1 && gIterateeNewIteratorRecv == ro.underlying && gIterateeNewIteratorA0 == prefix && gIterateeNewIteratorA1 == start
+//@   ensures  typeis(result, "*readonlyIterator") && unbox(result, "*readonlyIterator").parentIt == gIterateeNewIteratorR0 && unbox(result, "*readonlyIterator").mu == ro.mu
+//@ func (*readonlyIterator).Next
+//@   requires it != nil && it.parentIt != nil
+//@   modifies gIteratorNextN, gIteratorNextRecv, gIteratorNextR0
+//@   ensures  gIteratorNextN == old(gIteratorNextN) + 1 && gIteratorNextRecv == it.parentIt && result == gIteratorNextR0
+//@ func (*readonlyIterator).Key
+//@   requires it != nil && it.parentIt != nil
+//@   modifies gIteratorKeyN, gIteratorKeyRecv, gIteratorKeyR0, gIteratorKeyAt[*]
+//@   ensures  gIteratorKeyN == old(gIteratorKeyN) + 1 && gIteratorKeyRecv == it.parentIt && result == gIteratorKeyR0
+//@ func (*readonlyIterator).Value
+//@   requires it != nil && it.parentIt != nil
+//@   modifies gIteratorValueN, gIteratorValueRecv, gIteratorValueR0
+//@   ensures  gIteratorValueN == old(gIteratorValueN) + 1 && gIteratorValueRecv == it.parentIt && result == gIteratorValueR0
+//@ func (*readonlyIterator).Error
+//@   requires it != nil && it.parentIt != nil
+//@   modifies gIteratorErrorN, gIteratorErrorRecv, gIteratorErrorR0
+//@   ensures  gIteratorErrorN == old(gIteratorErrorN) + 1 && gIteratorErrorRecv == it.parentIt && result == gIteratorErrorR0
+//@ func (*readonlyIterator).Release
+//@   requires it != nil && it.parentIt != nil
+//@   modifies gIteratorReleaseN, gIteratorReleaseRecv
+//@   ensures  gIteratorReleaseN == old(gIteratorReleaseN) + 1 && gIteratorReleaseRecv == it.parentIt
